@@ -27,7 +27,7 @@ abbrev Addr := Nat
 /-- the heap: one integer cell per `big.Int` object ever allocated -/
 abbrev Heap := Array Int
 
-def Heap.get (h : Heap) (a : Addr) : Int := h.getD a 0
+def Heap.get (h : Heap) (a : Addr) : Int := (h[a]?).getD 0
 
 /-- heap computations; `none` = panic -/
 abbrev HM := StateT Heap Option
@@ -36,7 +36,7 @@ abbrev HM := StateT Heap Option
 def alloc (v : Int) : HM Addr := fun h => some (h.size, h.push v)
 
 /-- read `*p` -/
-def load (a : Addr) : HM Int := fun h => some (h.getD a 0, h)
+def load (a : Addr) : HM Int := fun h => some (h.get a, h)
 
 /-- `p.Set(v)` (any in-place `big.Int` method with receiver `p`) -/
 def store (a : Addr) (v : Int) : HM Unit := fun h => some ((), h.setIfInBounds a v)
@@ -74,6 +74,9 @@ def view (x : HIR) : HM IR := do
   let lo ← loadB x.lo
   let hi ← loadB x.hi
   pure ⟨lo, hi⟩
+
+/-- the value of an `IntRange` in a given heap (pure) -/
+def viewAt (h : Heap) (x : HIR) : IR := ⟨x.lo.map h.get, x.hi.map h.get⟩
 
 /-- `makeEmptyRange` -/
 def makeEmptyRange : HM HIR := do
@@ -230,27 +233,33 @@ def viewBI (b : HBI) : HM BI :=
   | .posInf => pure .posInf
   | .fin a => do let v ← load a; pure (.fin v)
 
+/-- the comparison of `lowerMin` -/
+def takeLo (l y : BI) : Bool :=
+  match l, y with
+  | .posInf, _ => true
+  | _, .negInf => true
+  | .fin a, .fin b => decide (a > b)
+  | _, _ => false
+
+/-- the comparison of `raiseMax` -/
+def takeHi (h y : BI) : Bool :=
+  match h, y with
+  | .negInf, _ => true
+  | _, .posInf => true
+  | .fin a, .fin b => decide (a < b)
+  | _, _ => false
+
 /-- `lowerMin` : `x[0] = y` (a pointer copy) when `y` is smaller -/
 def lowerMin (p : HBIP) (y : HBI) : HM HBIP := do
   let l ← viewBI p.lo
   let yv ← viewBI y
-  let take : Bool := match l, yv with
-    | .posInf, _ => true
-    | _, .negInf => true
-    | .fin a, .fin b => decide (a > b)
-    | _, _ => false
-  pure (if take then { p with lo := y } else p)
+  pure (if takeLo l yv then { p with lo := y } else p)
 
 /-- `raiseMax` -/
 def raiseMax (p : HBIP) (y : HBI) : HM HBIP := do
   let hv ← viewBI p.hi
   let yv ← viewBI y
-  let take : Bool := match hv, yv with
-    | .negInf, _ => true
-    | _, .posInf => true
-    | .fin a, .fin b => decide (a < b)
-    | _, _ => false
-  pure (if take then { p with hi := y } else p)
+  pure (if takeHi hv yv then { p with hi := y } else p)
 
 /-- `toIntRange` : the pair's own pointers, or a new empty range -/
 def toIntRange (p : HBIP) : HM HIR :=
@@ -261,14 +270,16 @@ def toIntRange (p : HBIP) : HM HIR :=
     pure ⟨(match l with | .fin a => some a | _ => none),
           (match h with | .fin b => some b | _ => none)⟩
 
+/-- `biggerInt{i: big.NewInt(0).Set(p)}`, or the given infinity for a nil pointer -/
+def copyBI (p : Option Addr) (inf : HBI) : HM HBI :=
+  match p with
+  | some a => do let v ← load a; let z ← alloc v; pure (HBI.fin z)
+  | none => pure inf
+
 /-- `fromIntRange` : copies (`big.NewInt(0).Set(y[k])`) -/
 def fromIntRange (y : HIR) : HM HBIP := do
-  let lo ← match y.lo with
-    | some a => do let v ← load a; let z ← alloc v; pure (HBI.fin z)
-    | none => pure HBI.negInf
-  let hi ← match y.hi with
-    | some a => do let v ← load a; let z ← alloc v; pure (HBI.fin z)
-    | none => pure HBI.posInf
+  let lo ← copyBI y.lo .negInf
+  let hi ← copyBI y.hi .posInf
   pure ⟨lo, hi⟩
 
 /-- `ret[0] = biggerInt{i: big.NewInt(0)}; ret[1] = biggerInt{i: big.NewInt(0)}` -/
@@ -291,35 +302,50 @@ def newBI (v : Int) : HM HBI := do
   let z ← alloc v
   pure (.fin z)
 
+/-- `if guard { alt } else { biggerInt{i: combine(..)} }` : the candidate bound of one Go
+`if … { ret.lowerMin(..) } else { ret.lowerMin(..) }` statement -/
+def choose (guard : Bool) (alt c : HM HBI) : HM HBI := if guard then alt else c
+
+/-- `ret.lowerMin(b)` for a computed candidate -/
+def stepLo (ret : HBIP) (b : HM HBI) : HM HBIP := do
+  let v ← b
+  lowerMin ret v
+
+/-- `ret.raiseMax(b)` for a computed candidate -/
+def stepHi (ret : HBIP) (b : HM HBI) : HM HBIP := do
+  let v ← b
+  raiseMax ret v
+
+/-- `if c { block }` on the running pair -/
+def optBlock (c : Bool) (blk : HBIP → HM HBIP) (ret : HBIP) : HM HBIP :=
+  if c then blk ret else pure ret
+
 /-! the four sign-definite blocks of `mulLsh` -/
 
 def mulNN (f : Int → Int → Int) (negX negY : HIR) (ret : HBIP) : HM HBIP := do
-  let c ← combine f negX.hi negY.hi
-  let ret ← lowerMin ret c
-  match negX.lo, negY.lo with
-  | some a, some b => do let c ← combine f (some a) (some b); raiseMax ret c
-  | _, _ => raiseMax ret .posInf
+  let ret ← stepLo ret (combine f negX.hi negY.hi)
+  stepHi ret (choose (negX.lo.isNone || negY.lo.isNone) (pure .posInf) (combine f negX.lo negY.lo))
 
 def mulNP (f : Int → Int → Int) (negX posY : HIR) (ret : HBIP) : HM HBIP := do
-  let ret ← match negX.lo, posY.hi with
-    | some a, some b => do let c ← combine f (some a) (some b); lowerMin ret c
-    | _, _ => lowerMin ret .negInf
-  let c ← combine f negX.hi posY.lo
-  raiseMax ret c
+  let ret ← stepLo ret (choose (negX.lo.isNone || posY.hi.isNone) (pure .negInf) (combine f negX.lo posY.hi))
+  stepHi ret (combine f negX.hi posY.lo)
 
 def mulPN (f : Int → Int → Int) (posX negY : HIR) (ret : HBIP) : HM HBIP := do
-  let ret ← match posX.hi, negY.lo with
-    | some a, some b => do let c ← combine f (some a) (some b); lowerMin ret c
-    | _, _ => lowerMin ret .negInf
-  let c ← combine f posX.lo negY.hi
-  raiseMax ret c
+  let ret ← stepLo ret (choose (posX.hi.isNone || negY.lo.isNone) (pure .negInf) (combine f posX.hi negY.lo))
+  stepHi ret (combine f posX.lo negY.hi)
 
 def mulPP (f : Int → Int → Int) (posX posY : HIR) (ret : HBIP) : HM HBIP := do
-  let c ← combine f posX.lo posY.lo
-  let ret ← lowerMin ret c
-  match posX.hi, posY.hi with
-  | some a, some b => do let c ← combine f (some a) (some b); raiseMax ret c
-  | _, _ => raiseMax ret .posInf
+  let ret ← stepLo ret (combine f posX.lo posY.lo)
+  stepHi ret (choose (posX.hi.isNone || posY.hi.isNone) (pure .posInf) (combine f posX.hi posY.hi))
+
+/-- the initial pair of `mulLsh` -/
+def mulInit (x : HIR) (shift hasZeroX hasZeroY : Bool) : HM HBIP :=
+  if hasZeroY && shift then fromIntRange x
+  else if (hasZeroY && !shift) || hasZeroX then zeroPair
+  else pure HBIP.new
+
+/-- the initial pair of `TryQuo` / `TryRsh` -/
+def zeroInit (hasZeroX : Bool) : HM HBIP := if hasZeroX then zeroPair else pure HBIP.new
 
 /-- `mulLsh` -/
 def mulLsh (x y : HIR) (shift : Bool) : HM HIR := do
@@ -331,21 +357,19 @@ def mulLsh (x y : HIR) (shift : Bool) : HM HIR := do
     let f : Int → Int → Int := if shift then bigLsh else (· * ·)
     let (negX, posX, hasNegX, hasZeroX, hasPosX) ← split3Ways x
     let (negY, posY, hasNegY, hasZeroY, hasPosY) ← split3Ways y
-    let ret ←
-      if hasZeroY && shift then fromIntRange x
-      else if (hasZeroY && !shift) || hasZeroX then zeroPair
-      else pure HBIP.new
-    let ret ←
-      if hasNegX then do
-        let ret ← if hasNegY then mulNN f negX negY ret else pure ret
-        if hasPosY then mulNP f negX posY ret else pure ret
-      else pure ret
-    let ret ←
-      if hasPosX then do
-        let ret ← if hasNegY then mulPN f posX negY ret else pure ret
-        if hasPosY then mulPP f posX posY ret else pure ret
-      else pure ret
+    let ret ← mulInit x shift hasZeroX hasZeroY
+    let ret ← optBlock hasNegX (fun ret => do
+        let ret ← optBlock hasNegY (mulNN f negX negY) ret
+        optBlock hasPosY (mulNP f negX posY) ret) ret
+    let ret ← optBlock hasPosX (fun ret => do
+        let ret ← optBlock hasNegY (mulPN f posX negY) ret
+        optBlock hasPosY (mulPP f posX posY) ret) ret
     toIntRange ret
+
+/-- wrap a successful result: `return z, true` -/
+def okRange (m : HM HIR) : HM (Option HIR) := do
+  let z ← m
+  pure (some z)
 
 /-- `Mul` -/
 def mul (x y : HIR) : HM HIR := mulLsh x y false
@@ -355,98 +379,68 @@ def tryLsh (x y : HIR) : HM (Option HIR) := do
   let X ← view x
   let Y ← view y
   if !X.empty && Y.containsNegative then pure none
-  else do let z ← mulLsh x y true; pure (some z)
+  else okRange (mulLsh x y true)
 
 /-! the four blocks of `TryQuo` -/
 
 def quoNN (negX negY : HIR) (ret : HBIP) : HM HBIP := do
-  let ret ← match negX.lo with
-    | none => raiseMax ret .posInf
-    | some a => do let c ← combine bigQuo (some a) negY.hi; raiseMax ret c
-  match negY.lo with
-  | none => do let c ← newBI 0; lowerMin ret c
-  | some b => do let c ← combine bigQuo negX.hi (some b); lowerMin ret c
+  let ret ← stepHi ret (choose negX.lo.isNone (pure .posInf) (combine bigQuo negX.lo negY.hi))
+  stepLo ret (choose negY.lo.isNone (newBI 0) (combine bigQuo negX.hi negY.lo))
 
 def quoNP (negX posY : HIR) (ret : HBIP) : HM HBIP := do
-  let ret ← match negX.lo with
-    | none => lowerMin ret .negInf
-    | some a => do let c ← combine bigQuo (some a) posY.lo; lowerMin ret c
-  match posY.hi with
-  | none => do let c ← newBI 0; raiseMax ret c
-  | some b => do let c ← combine bigQuo negX.hi (some b); raiseMax ret c
+  let ret ← stepLo ret (choose negX.lo.isNone (pure .negInf) (combine bigQuo negX.lo posY.lo))
+  stepHi ret (choose posY.hi.isNone (newBI 0) (combine bigQuo negX.hi posY.hi))
 
 def quoPN (posX negY : HIR) (ret : HBIP) : HM HBIP := do
-  let ret ← match posX.hi with
-    | none => lowerMin ret .negInf
-    | some a => do let c ← combine bigQuo (some a) negY.hi; lowerMin ret c
-  match negY.lo with
-  | none => do let c ← newBI 0; raiseMax ret c
-  | some b => do let c ← combine bigQuo posX.lo (some b); raiseMax ret c
+  let ret ← stepLo ret (choose posX.hi.isNone (pure .negInf) (combine bigQuo posX.hi negY.hi))
+  stepHi ret (choose negY.lo.isNone (newBI 0) (combine bigQuo posX.lo negY.lo))
 
 def quoPP (posX posY : HIR) (ret : HBIP) : HM HBIP := do
-  let ret ← match posX.hi with
-    | none => raiseMax ret .posInf
-    | some a => do let c ← combine bigQuo (some a) posY.lo; raiseMax ret c
-  match posY.hi with
-  | none => do let c ← newBI 0; lowerMin ret c
-  | some b => do let c ← combine bigQuo posX.lo (some b); lowerMin ret c
+  let ret ← stepHi ret (choose posX.hi.isNone (pure .posInf) (combine bigQuo posX.hi posY.lo))
+  stepLo ret (choose posY.hi.isNone (newBI 0) (combine bigQuo posX.lo posY.hi))
 
 /-- `TryQuo` -/
 def tryQuo (x y : HIR) : HM (Option HIR) := do
   let X ← view x
   let Y ← view y
-  if X.empty || Y.empty then do let z ← makeEmptyRange; pure (some z)
+  if X.empty || Y.empty then okRange makeEmptyRange
   else if Y.containsZero then pure none
-  else if X.justZero then do let z ← zeroRange; pure (some z)
+  else if X.justZero then okRange zeroRange
   else do
     let (negX, posX, hasNegX, hasZeroX, hasPosX) ← split3Ways x
     let (negY, posY, hasNegY, _, hasPosY) ← split3Ways y
-    let ret ← if hasZeroX then zeroPair else pure HBIP.new
-    let ret ←
-      if hasNegX then do
-        let ret ← if hasNegY then quoNN negX negY ret else pure ret
-        if hasPosY then quoNP negX posY ret else pure ret
-      else pure ret
-    let ret ←
-      if hasPosX then do
-        let ret ← if hasNegY then quoPN posX negY ret else pure ret
-        if hasPosY then quoPP posX posY ret else pure ret
-      else pure ret
-    let z ← toIntRange ret
-    pure (some z)
+    let ret ← zeroInit hasZeroX
+    let ret ← optBlock hasNegX (fun ret => do
+        let ret ← optBlock hasNegY (quoNN negX negY) ret
+        optBlock hasPosY (quoNP negX posY) ret) ret
+    let ret ← optBlock hasPosX (fun ret => do
+        let ret ← optBlock hasNegY (quoPN posX negY) ret
+        optBlock hasPosY (quoPP posX posY) ret) ret
+    okRange (toIntRange ret)
 
 /-! the two blocks of `TryRsh` -/
 
 def rshN (negX y : HIR) (ret : HBIP) : HM HBIP := do
-  let ret ← match negX.lo with
-    | none => lowerMin ret .negInf
-    | some a => do let c ← combine bigRsh (some a) y.lo; lowerMin ret c
-  match y.hi with
-  | none => do let c ← newBI (-1); raiseMax ret c
-  | some b => do let c ← combine bigRsh negX.hi (some b); raiseMax ret c
+  let ret ← stepLo ret (choose negX.lo.isNone (pure .negInf) (combine bigRsh negX.lo y.lo))
+  stepHi ret (choose y.hi.isNone (newBI (-1)) (combine bigRsh negX.hi y.hi))
 
 def rshP (posX y : HIR) (ret : HBIP) : HM HBIP := do
-  let ret ← match y.hi with
-    | none => do let c ← newBI 0; lowerMin ret c
-    | some b => do let c ← combine bigRsh posX.lo (some b); lowerMin ret c
-  match posX.hi with
-  | none => raiseMax ret .posInf
-  | some a => do let c ← combine bigRsh (some a) y.lo; raiseMax ret c
+  let ret ← stepLo ret (choose y.hi.isNone (newBI 0) (combine bigRsh posX.lo y.hi))
+  stepHi ret (choose posX.hi.isNone (pure .posInf) (combine bigRsh posX.hi y.lo))
 
 /-- `TryRsh` -/
 def tryRsh (x y : HIR) : HM (Option HIR) := do
   let X ← view x
   let Y ← view y
-  if X.empty || Y.empty then do let z ← makeEmptyRange; pure (some z)
+  if X.empty || Y.empty then okRange makeEmptyRange
   else if Y.containsNegative then pure none
-  else if X.justZero then do let z ← zeroRange; pure (some z)
+  else if X.justZero then okRange zeroRange
   else do
     let (negX, posX, hasNegX, hasZeroX, hasPosX) ← split3Ways x
-    let ret ← if hasZeroX then zeroPair else pure HBIP.new
-    let ret ← if hasNegX then rshN negX y ret else pure ret
-    let ret ← if hasPosX then rshP posX y ret else pure ret
-    let z ← toIntRange ret
-    pure (some z)
+    let ret ← zeroInit hasZeroX
+    let ret ← optBlock hasNegX (rshN negX y) ret
+    let ret ← optBlock hasPosX (rshP posX y) ret
+    okRange (toIntRange ret)
 
 /-! ### bit operations -/
 
@@ -538,6 +532,39 @@ def andBothNonNeg (x y : HIR) : HM HIR := do
         pure ⟨some z, none⟩)
     | _, _ => panic   -- a nil lower bound contains negatives: unreachable
 
+/-- the common tail of `orBothNonNeg`: `zMin = ~andMax(~x, ~y)`, computed in place -/
+def orTail (xlo xhi ylo yhi : Addr) (zMax : Option Addr) : HM HIR := do
+  let (nxl, nxh) ← notRangeFin xlo xhi
+  let (nyl, nyh) ← notRangeFin ylo yhi
+  let zMin ← andMax nxl nxh nyl nyh
+  let m ← load zMin
+  store zMin (inot m)                           -- zMin.Not(zMin)
+  pure ⟨some zMin, zMax⟩
+
+/-- `orBothNonNeg`, the branch where an upper bound is nil -/
+def orHalfInfinite (X Y : IR) (xlo ylo : Addr) (xhi? yhi? : Option Addr) : HM HIR := do
+  let xl ← load xlo
+  let yl ← load ylo
+  if X.containsInt yl then do let z ← alloc yl; pure ⟨some z, none⟩
+  else if Y.containsInt xl then do let z ← alloc xl; pure ⟨some z, none⟩
+  else
+    match xhi?, yhi? with
+    | none, none => panic
+    | some xhi, _ => do
+      let xh ← load xhi
+      if xh ≥ yl then panic
+      else do
+        let f ← alloc yl                         -- y[1] = big.NewInt(0).Set(y[0])
+        bitFillRight f
+        orTail xlo xhi ylo f none
+    | none, some yhi => do                       -- x, y = y, x
+      let yh ← load yhi
+      if yh ≥ xl then panic
+      else do
+        let f ← alloc xl
+        bitFillRight f
+        orTail ylo yhi xlo f none
+
 /-- `orBothNonNeg` -/
 def orBothNonNeg (x y : HIR) : HM HIR := do
   let X ← view x
@@ -546,40 +573,11 @@ def orBothNonNeg (x y : HIR) : HM HIR := do
   else
     match x.lo, y.lo with
     | some xlo, some ylo =>
-      -- the common tail: zMin = ~andMax(~x, ~y)
-      let tail (xlo xhi ylo yhi : Addr) (zMax : Option Addr) : HM HIR := do
-        let (nxl, nxh) ← notRangeFin xlo xhi
-        let (nyl, nyh) ← notRangeFin ylo yhi
-        let zMin ← andMax nxl nxh nyl nyh
-        let m ← load zMin
-        store zMin (inot m)
-        pure ⟨some zMin, zMax⟩
       (match x.hi, y.hi with
       | some xhi, some yhi => do
         let zMax ← orMax xlo xhi ylo yhi
-        tail xlo xhi ylo yhi (some zMax)
-      | xhi?, yhi? => do
-        let xl ← load xlo
-        let yl ← load ylo
-        if X.containsInt yl then do let z ← alloc yl; pure ⟨some z, none⟩
-        else if Y.containsInt xl then do let z ← alloc xl; pure ⟨some z, none⟩
-        else
-          match xhi?, yhi? with
-          | none, none => panic
-          | some xhi, _ => do
-            let xh ← load xhi
-            if xh ≥ yl then panic
-            else do
-              let f ← alloc yl                   -- y[1] = big.NewInt(0).Set(y[0])
-              bitFillRight f
-              tail xlo xhi ylo f none
-          | none, some yhi => do
-            let yh ← load yhi
-            if yh ≥ xl then panic
-            else do
-              let f ← alloc xl
-              bitFillRight f
-              tail ylo yhi xlo f none)
+        orTail xlo xhi ylo yhi (some zMax)
+      | xhi?, yhi? => orHalfInfinite X Y xlo ylo xhi? yhi?)
     | _, _ => panic
 
 /-- `andOneNegOneNonNeg` -/
@@ -623,12 +621,42 @@ def notSwap (r : HIR) : HM HIR := do
   let hi ← bigIntNewNot r.lo
   pure ⟨lo, hi⟩
 
-/-- `orOneNegOneNonNeg` -/
-def orOneNegOneNonNeg (neg non : HIR) : HM HIR := do
-  let a ← notSwap non
-  let b ← notSwap neg
-  let w ← andOneNegOneNonNeg a b
+/-- `~(f(~a, ~b))` : the De Morgan detour of the negative/negative case -/
+def viaNot (f : HIR → HIR → HM HIR) (a b : HIR) : HM HIR := do
+  let na ← notSwap a
+  let nb ← notSwap b
+  let w ← f na nb
   notSwap w
+
+/-- `orOneNegOneNonNeg` : `~andOneNegOneNonNeg(~non, ~neg)` -/
+def orOneNegOneNonNeg (neg non : HIR) : HM HIR := viaNot andOneNegOneNonNeg non neg
+
+/-- `if c { p.Set(v) }` -/
+def storeIf (c : Bool) (p : Addr) (v : Int) : HM Unit := if c then store p v else pure ()
+
+/-- inside `if x.Empty() { … }`: `if y[k] == nil { x[k] = nil } else { x[k].Set(y[k]) }` -/
+def ipuTake (p : Option Addr) (yv : Option Int) : HM (Option Addr) :=
+  match p, yv with
+  | some a, some v => do store a v; pure (some a)
+  | _, _ => pure none
+
+/-- `if x[k] != nil { if y[k] == nil { x[k] = nil } else if x[k].Cmp(y[k]) ≷ 0 { x[k].Set(y[k]) } }`
+(`lower = true` for k = 0: take the smaller one) -/
+def ipuBound (lower : Bool) (p : Option Addr) (yv : Option Int) : HM (Option Addr) :=
+  match p, yv with
+  | some a, some b => do
+    let v ← load a
+    storeIf (if lower then decide (v > b) else decide (v < b)) a b
+    pure (some a)
+  | _, _ => pure none
+
+/-- the `if x.Empty() { … }` block of `inPlaceUnite` -/
+def ipuEmpty (xEmpty : Bool) (x : HIR) (Y : IR) : HM HIR :=
+  if xEmpty then do
+    let lo ← ipuTake x.lo Y.lo
+    let hi ← ipuTake x.hi Y.hi
+    pure ⟨lo, hi⟩
+  else pure x
 
 /-- `inPlaceUnite` : the receiver's own objects are overwritten (`x[k].Set(y[k])`) or its
 pointers set to nil; returns the new value of the receiver array.  No pointer of `y` is kept. -/
@@ -637,36 +665,14 @@ def inPlaceUnite (x y : HIR) : HM HIR := do
   if Y.empty then pure x
   else do
     let X ← view x
-    -- if x.Empty() { … }
-    let x1 : HIR ←
-      if X.empty then do
-        let lo ← match x.lo, Y.lo with
-          | some p, some v => do store p v; pure (some p)
-          | _, _ => pure none
-        let hi ← match x.hi, Y.hi with
-          | some p, some v => do store p v; pure (some p)
-          | _, _ => pure none
-        pure ⟨lo, hi⟩
-      else pure x
-    let lo ← match x1.lo with
-      | none => pure none
-      | some p =>
-        match Y.lo with
-        | none => pure none
-        | some b => do
-          let a ← load p
-          if a > b then store p b
-          pure (some p)
-    let hi ← match x1.hi with
-      | none => pure none
-      | some p =>
-        match Y.hi with
-        | none => pure none
-        | some b => do
-          let a ← load p
-          if a < b then store p b
-          pure (some p)
+    let x1 ← ipuEmpty X.empty x Y
+    let lo ← ipuBound true x1.lo Y.lo
+    let hi ← ipuBound false x1.hi Y.hi
     pure ⟨lo, hi⟩
+
+/-- `if c { z.inPlaceUnite(part) }` -/
+def uniteIf (c : Bool) (z : HIR) (part : HM HIR) : HM HIR :=
+  if c then do let w ← part; inPlaceUnite z w else pure z
 
 /-- `And` -/
 def and (x y : HIR) : HM HIR := do
@@ -678,25 +684,10 @@ def and (x y : HIR) : HM HIR := do
     let (negX, nonX, hasNegX, hasNonX) ← split2Ways x
     let (negY, nonY, hasNegY, hasNonY) ← split2Ways y
     let z ← makeEmptyRange
-    let z ← if hasNegX && hasNegY then do
-        let a ← notSwap negX
-        let b ← notSwap negY
-        let w ← orBothNonNeg a b
-        let w' ← notSwap w
-        inPlaceUnite z w'
-      else pure z
-    let z ← if hasNegX && hasNonY then do
-        let w ← andOneNegOneNonNeg negX nonY
-        inPlaceUnite z w
-      else pure z
-    let z ← if hasNonX && hasNegY then do
-        let w ← andOneNegOneNonNeg negY nonX
-        inPlaceUnite z w
-      else pure z
-    let z ← if hasNonX && hasNonY then do
-        let w ← andBothNonNeg nonX nonY
-        inPlaceUnite z w
-      else pure z
+    let z ← uniteIf (hasNegX && hasNegY) z (viaNot orBothNonNeg negX negY)
+    let z ← uniteIf (hasNegX && hasNonY) z (andOneNegOneNonNeg negX nonY)
+    let z ← uniteIf (hasNonX && hasNegY) z (andOneNegOneNonNeg negY nonX)
+    let z ← uniteIf (hasNonX && hasNonY) z (andBothNonNeg nonX nonY)
     pure z
 
 /-- `Or` -/
@@ -709,25 +700,10 @@ def or (x y : HIR) : HM HIR := do
     let (negX, nonX, hasNegX, hasNonX) ← split2Ways x
     let (negY, nonY, hasNegY, hasNonY) ← split2Ways y
     let z ← makeEmptyRange
-    let z ← if hasNegX && hasNegY then do
-        let a ← notSwap negX
-        let b ← notSwap negY
-        let w ← andBothNonNeg a b
-        let w' ← notSwap w
-        inPlaceUnite z w'
-      else pure z
-    let z ← if hasNegX && hasNonY then do
-        let w ← orOneNegOneNonNeg negX nonY
-        inPlaceUnite z w
-      else pure z
-    let z ← if hasNonX && hasNegY then do
-        let w ← orOneNegOneNonNeg negY nonX
-        inPlaceUnite z w
-      else pure z
-    let z ← if hasNonX && hasNonY then do
-        let w ← orBothNonNeg nonX nonY
-        inPlaceUnite z w
-      else pure z
+    let z ← uniteIf (hasNegX && hasNegY) z (viaNot andBothNonNeg negX negY)
+    let z ← uniteIf (hasNegX && hasNonY) z (orOneNegOneNonNeg negX nonY)
+    let z ← uniteIf (hasNonX && hasNegY) z (orOneNegOneNonNeg negY nonX)
+    let z ← uniteIf (hasNonX && hasNonY) z (orBothNonNeg nonX nonY)
     pure z
 
 /-! ### running an operator on concrete operands (used by the driver and the theorems) -/
@@ -740,16 +716,16 @@ deriving DecidableEq, Repr, Inhabited
 /-- run `op`; inner `none` = `ok == false` -/
 def runOp (op : Op) (x y : HIR) : HM (Option HIR) :=
   match op with
-  | .add => do let z ← add x y; pure (some z)
-  | .sub => do let z ← sub x y; pure (some z)
-  | .mul => do let z ← mul x y; pure (some z)
+  | .add => okRange (add x y)
+  | .sub => okRange (sub x y)
+  | .mul => okRange (mul x y)
   | .quo => tryQuo x y
   | .lsh => tryLsh x y
   | .rsh => tryRsh x y
-  | .and => do let z ← and x y; pure (some z)
-  | .or => do let z ← or x y; pure (some z)
-  | .unite => do let z ← unite x y; pure (some z)
-  | .intersect => do let z ← intersect x y; pure (some z)
+  | .and => okRange (and x y)
+  | .or => okRange (or x y)
+  | .unite => okRange (unite x y)
+  | .intersect => okRange (intersect x y)
 
 /-- the value-level operator of `Model/Interval.lean`: outer `none` = panic, inner `none` = fail -/
 def pureOp (op : Op) (X Y : IR) : Option (Option IR) :=
